@@ -30,6 +30,39 @@ func runC11(r *Run) {
 				fns = append(fns, f)
 			}
 		}
+		r.Rule("R8", "FLOW.redeem-grant-comes-from-the-module: a clawback vesting account keeps one aggregate lock-up and one aggregate vesting schedule and lets its owner spend min(unlocked, vested); that is safe only because nobody but the account's funder can add grants. Redeem merges the redeemed coins' remaining lock-up into the receiver as a grant: the funder it names to ApplyVestingSchedule derives from the liquidvesting module address alone — not from the receiver's own FunderAddress, which makes the vesting keeper's 'grants only from the funder' check pass for anybody: redeemed coins (vested, still locked) merged next to an unlocked-but-unvested grant of a colluding funder are spendable at once")
+		if rd, ok := r.P.FnOK("(x/liquidvesting/keeper.Keeper).Redeem"); ok {
+			nA := 0
+			eachCall(rd, func(ci CallInfo) {
+				if ci.Name != "ApplyVestingSchedule" {
+					return
+				}
+				nA++
+				sig := ci.Instr.Common().Signature()
+				var funder ssa.Value
+				off := 0
+				if !ci.Instr.Common().IsInvoke() && sig.Recv() != nil {
+					off = 1
+				}
+				for i := 0; i < sig.Params().Len(); i++ {
+					if sig.Params().At(i).Name() == "funder" {
+						funder = ci.Instr.Common().Args[i+off]
+					}
+				}
+				if funder == nil {
+					r.Bad("R8", fnID(rd)+"#grant-funder-is-the-module", r.P.Pos(instrPos(ci.Instr)), "ApplyVestingSchedule has no funder parameter any more")
+					return
+				}
+				sl := backSlice(funder)
+				fromModule := sl.HasCall(func(g CallInfo) bool { return g.Name == "GetModuleAddress" })
+				fromTarget := sl.HasField("ClawbackVestingAccount", "FunderAddress")
+				r.Check(fromModule && !fromTarget, "R8", fnID(rd)+"#grant-funder-is-the-module", r.P.Pos(instrPos(ci.Instr)), "funder = liquidvesting module address only",
+					"Redeem names the receiving account's own funder as the funder of the grant it merges: any holder of a liquid token can push a locked grant into any clawback account, e.g. one whose funder he controls and which holds an unlocked-but-unvested grant — min(unlocked, vested) over the merged aggregates releases the redeemed coins before their original lock-up ends")
+			})
+			r.Floor("R8", "ApplyVestingSchedule calls in Redeem", nA, 1)
+		} else {
+			r.Bad("R8", "anchor/Redeem", "", "not found")
+		}
 		n := checkErrorsFailTheMessage(r, "R7", fns, "the liquid tokens are already burnt / the coins already moved at that point, so the redeemed amount leaves the module without its lock-up schedule (or a liquidation mints without escrow)")
 		r.Floor("R7", "error-returning keeper calls in Liquidate/Redeem", n, 12)
 	}()
